@@ -794,7 +794,7 @@ def run_geo(ctx, res, gc, rng, npoints, fixed_points=None, fixed_z=None, all_gue
             r = call_ccp(gc, p, aid, extras, qt)
             akind = '+'.join(sorted(k for k in aid))
             res.count('aids:%s' % (akind or 'none'))
-            case = dict(kind='point', recipe=gc.recipe, p=list(p), aid=aid, expected=E)
+            case = dict(kind='point', recipe=gc.recipe, holes=gc.holes, p=list(p), aid=aid, expected=E)
             if isinstance(r, str):
                 vio(res, 'ccp-raises:' + r[4:], '%s: column_containing_point(%r, %s) raises %s' % (label, p, alabel, r[4:]), case)
             elif r is not None and r != E:
@@ -826,7 +826,7 @@ def run_geo(ctx, res, gc, rng, npoints, fixed_points=None, fixed_z=None, all_gue
                 except Exception as e:
                     bn, rb = None, 'exc ' + type(e).__name__
                 exp = expected_block(gc, E, z)
-                case = dict(kind='block', recipe=gc.recipe, p=list(p), z=z, qtree=useq)
+                case = dict(kind='block', recipe=gc.recipe, holes=gc.holes, p=list(p), z=z, qtree=useq)
                 res.count('elevation:%s' % exp[0])
                 res.hyp.setdefault('Contiguous layers and z off every layer boundary', [0, 0])
                 res.hyp['Contiguous layers and z off every layer boundary'][1] += 1
@@ -1464,14 +1464,74 @@ def search(ctx, seconds, res):
     return found
 
 
-def replay(ctx, payload):
+def replay_fn(c):
+    """re-evaluate the oracle of one direct geometry.py helper case"""
     import numpy as np
+    import geometry
+
+    def arr(p):
+        return np.array(p, dtype=float)
+    fn = c['fn']
+    if fn == 'in_polygon':
+        r = int(geometry.in_polygon(arr(c['p']), [arr(q) for q in c['poly']]))
+        wn = winding(FP(c['p']), [FP(q) for q in c['poly']])
+        bb = geometry.bounds_of_points([arr(q) for q in c['poly']])
+        bad = (r == 1) != (wn != 0) or (r == 1 and not geometry.in_rectangle(arr(c['p']), bb))
+        return bad, 'in_polygon(%r, %r) = %d, winding number %r' % (c['p'], c['poly'], r, wn)
+    if fn == 'in_rectangle':
+        p, r1 = c['p'], c['rect']
+        v = bool(geometry.in_rectangle(arr(p), [arr(r1[0]), arr(r1[1])]))
+        want = r1[0][0] <= p[0] <= r1[1][0] and r1[0][1] <= p[1] <= r1[1][1]
+        return v != want, 'in_rectangle(%r, %r) = %r, expected %r' % (p, r1, v, want)
+    if fn == 'rectangles_intersect':
+        r1, r2 = c['r1'], c['r2']
+        v = bool(geometry.rectangles_intersect([arr(r1[0]), arr(r1[1])], [arr(r2[0]), arr(r2[1])]))
+        want = not (r1[1][0] < r2[0][0] or r2[1][0] < r1[0][0] or r1[1][1] < r2[0][1] or r2[1][1] < r1[0][1])
+        return v != want, 'rectangles_intersect(%r, %r) = %r, expected %r' % (r1, r2, v, want)
+    if fn == 'sub_rectangles':
+        r1 = c['rect']
+        sr = geometry.sub_rectangles([arr(r1[0]), arr(r1[1])])
+        area = sum((F(b[0]) - F(a[0])) * (F(b[1]) - F(a[1])) for a, b in sr)
+        bad = len(sr) != 4 or area != (F(r1[1][0]) - F(r1[0][0])) * (F(r1[1][1]) - F(r1[0][1]))
+        return bad, 'sub_rectangles(%r) = %r' % (r1, [[list(map(float, a)), list(map(float, b))] for a, b in sr])
+    if fn == 'line_intersects_rectangle':
+        r1, a, b = c['rect'], c['a'], c['b']
+        t0, t1, ok = Fr(0), Fr(1), True
+        A, B = FP(a), FP(b)
+        for d, lo, hi, s0 in ((B[0] - A[0], F(r1[0][0]), F(r1[1][0]), A[0]), (B[1] - A[1], F(r1[0][1]), F(r1[1][1]), A[1])):
+            if d == 0:
+                ok = ok and lo <= s0 <= hi
+            else:
+                u, w = (lo - s0) / d, (hi - s0) / d
+                t0, t1 = max(t0, min(u, w)), min(t1, max(u, w))
+        want = ok and t0 < t1
+        try:
+            v = bool(geometry.line_intersects_rectangle([arr(r1[0]), arr(r1[1])], [arr(a), arr(b)]))
+        except Exception as e:
+            v = 'exc ' + type(e).__name__
+        return v != want, 'line_intersects_rectangle(%r, %r) = %r, exact clipping says %r' % (r1, (a, b), v, want)
+    if fn == 'line_polygon_intersections':
+        poly, a, b = c['poly'], c['a'], c['b']
+        fp2 = [FP(q) for q in poly]
+        with quiet():
+            ps = geometry.line_polygon_intersections([arr(q) for q in poly], [arr(a), arr(b)])
+        bad = False
+        for q in ps:
+            Q = FP(q)
+            if dist2_seg(Q, FP(a), FP(b)) > Fr(1, 10 ** 12) or min(dist2_seg(Q, fp2[i], fp2[(i + 1) % len(fp2)]) for i in range(len(fp2))) > Fr(1, 10 ** 12):
+                bad = True
+        return bad, 'line_polygon_intersections(%r, %r) = %r' % (poly, (a, b), [list(map(float, q)) for q in ps])
+    return False, 'unknown helper %r' % fn
+
+
+def replay(ctx, payload):
     c = payload.get('case') or {}
     kind = c.get('kind')
+    key = payload.get('key', '')
     ctx.model_ok = False
     res = Result()
     if kind in ('point', 'block', 'qtree'):
-        gc = GeoCase('replay', build_geo(c['recipe']), c['recipe'])
+        gc = GeoCase('replay', build_geo(c['recipe']), c['recipe'], bool(c.get('holes', False)))
         if kind == 'qtree':
             try:
                 with quiet():
@@ -1482,19 +1542,27 @@ def replay(ctx, payload):
             return bool(probs), 'quadtree of %s: %s' % (c['recipe'], probs or 'partition clauses hold')
         p = tuple(c['p'])
         status, inside = gc.locate_exact(p)
-        with quiet():
-            qt = gc.geo.column_quadtree()
+        try:
+            with quiet():
+                qt = gc.geo.column_quadtree()
+        except Exception as e:
+            return True, 'column_quadtree() raises %s' % type(e).__name__
         extras = make_extras(gc, ctx.rng('replay'))
         if kind == 'point':
             E = inside[0] if len(inside) == 1 else None
-            r = call_ccp(gc, p, c['aid'], extras, qt)
+            aid = c['aid']
+            if 'qtree_subset' in aid:
+                with quiet():
+                    qt = gc.geo.column_quadtree([gc.cols[i] for i in aid['qtree_subset']])
+                aid = dict(qtree=True)
+            r = call_ccp(gc, p, aid, extras, qt)
             txt = 'point %r: exact search gives column %r (%s); column_containing_point with aids %s returns %r' % (
                 p, None if E is None else gc.cols[E].name, status, c['aid'], r if not isinstance(r, int) else gc.cols[r].name)
-            bad = isinstance(r, str) or (r is not None and r != E) or (r is None and E is not None and payload.get('key', '').startswith('ccp-missed'))
+            bad = isinstance(r, str) or (r is not None and r != E) or (r is None and E is not None and key.startswith('ccp-missed'))
             return bad, txt
         run_geo(ctx, res, gc, ctx.rng('replay'), 0, fixed_points=[p], fixed_z=c['z'])
-        hits = [v for v in res.violations if v['key'].startswith('block')]
-        return bool(hits), 'point %r z=%r: %s' % (p, c['z'], [v['what'] for v in hits] or 'block clauses hold')
+        hits = [v for v in res.violations if v['key'].startswith('block') and v['case'].get('qtree') == c.get('qtree')]
+        return bool(hits), 'point %r z=%r: %s' % (p, c['z'], sorted(set(v['what'] for v in hits)) or 'block clauses hold')
     if kind == 'track':
         gc = GeoCase('replay', build_geo(c['recipe']), c['recipe'])
         a, b = tuple(c['a']), tuple(c['b'])
@@ -1503,11 +1571,5 @@ def replay(ctx, payload):
         probs = oracle_track(gc, a, b, track, exact, flags)
         return bool(probs), 'line %r -> %r: track has %s entries; %s' % (a, b, len(track) if not isinstance(track, str) else track, [t for _, t in probs] or 'track clauses hold')
     if kind == 'fn':
-        import geometry
-        fn = c['fn']
-        if fn == 'in_polygon':
-            r = int(geometry.in_polygon(np.array(c['p'], dtype=float), [np.array(q, dtype=float) for q in c['poly']]))
-            wn = winding(FP(c['p']), [FP(q) for q in c['poly']])
-            return (r == 1) != (wn != 0), 'in_polygon(%r, %r) = %d, winding number %r' % (c['p'], c['poly'], r, wn)
-        return False, 'replay of %s: re-run the check (direct helper case)' % fn
+        return replay_fn(c)
     return False, 'replay file names what no longer checks: %s' % payload.get('broken')
